@@ -189,12 +189,17 @@ def mk_PROBEHOSTKEYBAD(label):
     return _faulty(label, 2, ('len', 2, 'huge31'), base=mk_RSA2048, conn=1)
 
 
+def mk_PROBEDEBUGBAD(label):
+    # on the probe connection: a well-formed DEBUG message, then a host-key reply with a bad block size
+    return _faulty(label, 2, ('debug_then', ('len', 0, 'plus1')), base=mk_RSA2048, conn=1)
+
+
 FAILING = {
     'UNRESOLVABLE': None, 'REFUSED': mk_REFUSED, 'CONNTIMEOUT': mk_CONNTIMEOUT, 'SILENT': mk_SILENT, 'CLOSEEARLY': mk_CLOSEEARLY,
     'CLOSEAFTERBANNER': mk_CLOSEAFTERBANNER, 'BADBLOCK': mk_BADBLOCK, 'TRUNCKEXINIT': mk_TRUNCKEXINIT, 'WRONGFIRST': mk_WRONGFIRST,
     'GARBAGEBANNER': mk_GARBAGEBANNER, 'BADCRC': mk_BADCRC, 'PROBEGARBAGE': mk_PROBEGARBAGE, 'PROBEBADBLOCK': mk_PROBEBADBLOCK,
     'EMPTYPAYLOAD': mk_EMPTYPAYLOAD, 'PADOVERRUN': mk_PADOVERRUN, 'PROBEEMPTYPAYLOAD': mk_PROBEEMPTYPAYLOAD,
-    'PROBEKEXBAD': mk_PROBEKEXBAD, 'PROBEHOSTKEYBAD': mk_PROBEHOSTKEYBAD,
+    'PROBEKEXBAD': mk_PROBEKEXBAD, 'PROBEHOSTKEYBAD': mk_PROBEHOSTKEYBAD, 'PROBEDEBUGBAD': mk_PROBEDEBUGBAD,
 }
 
 ALL = dict(HEALTHY)
